@@ -313,24 +313,25 @@ impl<'a, D: Dataset + ?Sized> ExecState<'a, D> {
     fn graph_rec(
         &mut self,
         var: &str,
-        mut graph_names: std::collections::btree_set::IntoIter<ArcTerm>,
+        graph_names: std::collections::btree_set::IntoIter<ArcTerm>,
         inner: &GraphPattern,
         binding: Option<&Binding>,
     ) -> Result<Bindings<'a, D>, SparqlWrapperError<D::Error>> {
-        if let Some(name) = graph_names.next() {
+        // (a loop and a flat sequence of iterators, not a recursion nesting one chained iterator
+        //  per graph name: the stack must not grow with the number of named graphs)
+        let mut first_variables = None;
+        let mut iters = vec![];
+        for name in graph_names {
             let mut b = binding.cloned().unwrap_or_else(Binding::default);
             b.v.insert(self.stash.copy_str(var), name.clone().into());
             let graph_matcher = vec![Some(name)];
             let Bindings { variables, iter } = self.select(inner, &graph_matcher, Some(&b))?;
-            let iter = Box::new(iter.chain(Box::new(
-                self.graph_rec(var, graph_names, inner, binding)?.iter,
-            )));
-            Ok(Bindings { variables, iter })
-        } else {
-            let variables = vec![];
-            let iter = Box::new(std::iter::empty());
-            Ok(Bindings { variables, iter })
+            first_variables.get_or_insert(variables);
+            iters.push(iter);
         }
+        let variables = first_variables.unwrap_or_default();
+        let iter = Box::new(iters.into_iter().flatten());
+        Ok(Bindings { variables, iter })
     }
 
     fn extend(
